@@ -261,10 +261,33 @@ def body(ctx, conv, shape, variant, kind, part, data_first=False, via=None):
                 # index components held in narrow numpy integer types (as read from a table) mean the same cell
                 r16 = bc.ravel_index((numpy.int32(j), numpy.int32(i)))
                 ctx.check(int(r16) == n, 'linear order is row-major')
+            # every cell of some wider grids, concretely (row lengths 49, 103, 197, 1000 ...): a witness sweep for
+            # arithmetic the integer encoding does not cover (floating point reciprocals, narrow integer types)
+            for ny_, nx_ in ((2, 49), (33, 32), (40, 103), (7, 197), (1025, 2), (3, 1000), (9, 1117)):
+                wide = CFGrid1D(builders.cf1d(ny_, nx_, lat=numpy.linspace(-60.0, 60.0, ny_), lon=numpy.linspace(0.0, 300.0, nx_)))
+                bad = None
+                for n in range(ny_ * nx_):
+                    got = wide.wind_index(n)
+                    if tuple(int(v) for v in got) != (n // nx_, n % nx_) or int(wide.ravel_index(got)) != n:
+                        bad = n
+                        break
+                ctx.check(bad is None, 'wind_index(ravel_index(idx)) == idx')
             small = CFGrid1D(builders.cf1d(200, 300))
             for j, i in ((150, 299), (199, 0), (110, 7)):
                 ctx.check(int(small.ravel_index((numpy.int16(j), numpy.int16(i)))) == j * 300 + i, 'linear order is row-major')
                 ctx.check(int(small.ravel_index((numpy.uint8(j), numpy.uint16(i)))) == j * 300 + i, 'linear order is row-major')
+        if conv == 'shoc_standard':
+            from emsarray.conventions.shoc import ShocStandard
+            wide = ShocStandard(builders.shoc_standard(6, 107))
+            for k_ in wide.grid_kinds:
+                shp_ = wide.grid_shape[k_]
+                bad = None
+                for n in range(int(numpy.prod(shp_))):
+                    got = wide.wind_index(n, grid_kind=k_)
+                    if got[0] is not k_ or tuple(int(v) for v in got[1:]) != (n // shp_[1], n % shp_[1]) or int(wide.ravel_index(got)) != n:
+                        bad = n
+                        break
+                ctx.check(bad is None, 'wind_index(ravel_index(idx)) == idx')
         return
 
     if part == 'helper':
